@@ -333,6 +333,43 @@ func (x *imgCtx) xattrCase(nid string, n *node) {
 	}
 }
 
+// xattrRegimeStat records where the reference tool put the attributes of a node that was read back correctly:
+// inode kind x (in-inode / external block / both) x inode size.
+func (x *imgCtx) xattrRegimeStat(n *node) {
+	c := x.c
+	ibody := false
+	if raw := x.rawInode(n); len(raw) > 132 {
+		st := 128 + int(binary.LittleEndian.Uint16(raw[128:130]))
+		// the magic alone does not count: the reference tool writes it in front of an empty table as well
+		ibody = st+8 <= len(raw) && binary.LittleEndian.Uint32(raw[st:st+4]) == 0xEA020000 && binary.LittleEndian.Uint32(raw[st+4:st+8]) != 0
+	}
+	block := n.ref != nil && n.ref.fileACL != 0
+	where := "none"
+	switch {
+	case ibody && block:
+		where = "both"
+	case block:
+		where = "block"
+	case ibody:
+		where = "ibody"
+	}
+	k := n.kind.String()
+	if n.kind == kSymlink {
+		if len(n.target) < 60 {
+			k = "symlink-fast"
+		} else {
+			k = "symlink-slow"
+		}
+	}
+	c.Stat(fmt.Sprintf("xattr-regime:%s:%s:isz%d", k, where, x.o.inodeSize))
+	if block {
+		c.Stat(k + "_with_xattr_block")
+		if n.kind == kSymlink && len(n.target) < 60 {
+			c.Stat("symlink_with_xattr_block") // a fast symlink whose i_blocks is not zero
+		}
+	}
+}
+
 var castagnoli = crc32.MakeTable(crc32.Castagnoli)
 
 // gateCase: the superblock decoder (64-bit halves, acceptance) and the open decision on the feature words.
